@@ -99,7 +99,30 @@ func pathTable(c *Ctx, ts tableSpec) ([]string, []string, token.Pos) {
 		}
 		var effs []eff
 		if !ts.noAssign {
-			for _, as := range assigns {
+			// an assignment overwritten by a later one to the same place, with no call in between that could see
+			// it, does not show: `x = a; if c { x = b }` and `if c { x = b } else { x = a }` are the same rows
+			dead := map[int]bool{}
+			for i, a1 := range assigns {
+				for _, a2 := range assigns[i+1:] {
+					if a2.lhs != a1.lhs || strings.Contains(a2.src, "= ") && !strings.HasPrefix(a2.src, a2.lhs+" = ") && a2.src != "" && strings.ContainsAny(a2.src[:1], "+-*/|&^") {
+						continue
+					}
+					seen := false
+					for _, cr := range crs {
+						if cr.seq > a1.seq && cr.seq < a2.seq {
+							seen = true
+						}
+					}
+					if !seen && !strings.Contains(renderVal(a2.rhs), a1.lhs) && !strings.Contains(a2.src, a1.lhs+" ") {
+						dead[i] = true
+					}
+					break
+				}
+			}
+			for i, as := range assigns {
+				if dead[i] {
+					continue
+				}
 				rv := renderVal(as.rhs)
 				switch {
 				case strings.Contains(as.src, "= ") && (rv == "?" || rv == ""):
